@@ -206,7 +206,9 @@ class DRYRule(BaseLintRule):  # pylint: disable=too-many-instance-attributes
         """
         # Try to get from metadata (orchestrator sets this)
         if hasattr(context, "metadata") and isinstance(context.metadata, dict):
-            project_root = context.metadata.get("project_root")
+            project_root = context.metadata.get("_project_root") or context.metadata.get(
+                "project_root"
+            )
             if project_root:
                 return Path(project_root)
 
